@@ -314,6 +314,17 @@ def expand_combinators(prog, e, depth=4):
             return [subst_closure(r, caps, (arg,)) for r in rets]
         return None
 
+    def apply0(F):
+        """the value(s) of calling F without arguments (a function item or a closure)"""
+        F = strip(F)
+        if F[0] == "fn":
+            return [("call", F[1], (), 0)]
+        cl, caps = closure_of(F)
+        if cl and cl in prog.bodies:
+            rets = Expr(prog, cl).returns()
+            return [subst_closure(r, caps, ()) for r in rets]
+        return None
+
     def alts_of(x):
         x = strip(x)
         return [strip(a) for a in x[1]] if x[0] == "phi" else [x]
@@ -328,6 +339,39 @@ def expand_combinators(prog, e, depth=4):
             return x
         if x[0] == "call" and isinstance(x[1], str) and len(x) >= 3 and d > 0:
             args = tuple(go(a, d) for a in x[2])
+            m2 = re.search(r"^core::option::Option::<T>::(map_or_else|map_or|unwrap_or_else)$", x[1])
+            if m2 and args:
+                # Option::map_or_else(o, D, F) -> phi(D() | F(o.@Some.0));  map_or(o, d, F) -> phi(d | F(..));
+                # unwrap_or_else(o, D) -> phi(o.@Some.0 | D())
+                kind2 = m2.group(1)
+                out = []
+                okx = True
+                for r in alts_of(args[0]):
+                    somev = ("field", r, ("@Some", "0"))
+                    if kind2 == "unwrap_or_else" and len(args) == 2:
+                        dv = apply0(args[1])
+                        if dv is None:
+                            okx = False
+                            break
+                        out += [somev] + [go(v, d - 1) for v in dv]
+                    elif kind2 in ("map_or_else", "map_or") and len(args) == 3:
+                        dv = apply0(args[1]) if kind2 == "map_or_else" else [args[1]]
+                        fv = apply(args[2], somev)
+                        if dv is None or fv is None:
+                            okx = False
+                            break
+                        out += [go(v, d - 1) for v in dv] + [go(v, d - 1) for v in fv]
+                    else:
+                        okx = False
+                        break
+                if okx:
+                    out = [simplify(o) for o in out]
+                    uniq = []
+                    for o in out:
+                        if o not in uniq:
+                            uniq.append(o)
+                    return uniq[0] if len(uniq) == 1 else ("phi", tuple(uniq))
+                return (x[0], x[1], args) + tuple(x[3:])
             m = re.search(r"^core::(result::Result::<T, E>|option::Option::<T>)::(map|map_err|ok)$", x[1])
             if m and args:
                 is_res = m.group(1).startswith("result")
